@@ -17,6 +17,10 @@ Pen == /\ Is("Pen") /\ l' = l + 1
        /\ Ev.valueOnlySame                                                             \* value-only call = value of value+gradient call
        \* at feasible points (zero multipliers for the AL) the penalties coincide with the objective
        /\ (Feasible(Ev.cs, Ev.x) => (Ev.lin = Ev.f /\ Ev.quad = Ev.f /\ Ev.al0 = 2 * Ev.rho * Ev.f))
+\* a linear / quadratic program with integer data converted by nano::make_function: dimension, objective c.x (+ x'Qx/2) with its gradient,
+\* and the constraint set {A x - b = 0, G x - h <= 0} (matched by kind, gradient and value) agree with the driver's exact evaluation
+Prog == /\ Is("Prog") /\ l' = l + 1
+        /\ Ev.dimOK /\ Ev.objOK /\ Ev.gradOK /\ Ev.consOK
 \* return of a constrained solver: C05 second sentence (+ the generic contract of C02 for these solvers)
 Solve == /\ Is("Solve") /\ l' = l + 1
          /\ Ev.status \in {"converged", "max_iters", "failed"}
@@ -24,11 +28,12 @@ Solve == /\ Is("Solve") /\ l' = l + 1
          /\ Ev.storedOK                                                                \* stored constraint values / KKT tests 1-2 = recomputed ones
          /\ (Ev.status # "failed" => Ev.finite)
          /\ ((Ev.solver = "augmented-lagrangian" /\ Ev.status = "converged") => Ev.feasOK)   \* every |h_j| and max(0, g_i) <= epsilon
+         /\ ((Ev.solver = "augmented-lagrangian" /\ Ev.planted) => Ev.status # "converged")  \* ... so never on a planted empty feasible set
          /\ Ev.fcalls <= Ev.nF /\ Ev.gcalls <= Ev.nG
          \* C02, budget clause for these solvers: at most max_outer_iters inner solves, each exceeding solver::max_evals by at most one
          \* outer iteration of the inner (default) solver, plus the evaluation of the objective at the start and after every inner solve
          /\ Ev.nF + Ev.nG <= Ev.maxOuters * (Ev.maxEvals + 1100 + 8 * Ev.n + 2) + 2
-Next == Pen \/ Solve
+Next == Pen \/ Prog \/ Solve
 Init == l = 1
 Spec == Init /\ [][Next]_l
 Accepted == LET d == TLCGet("stats").diameter IN
